@@ -68,7 +68,7 @@ func budget(tier string) time.Duration {
 	if tier == "thorough" {
 		return 40 * time.Minute
 	}
-	return 6 * time.Minute
+	return 9 * time.Minute
 }
 
 // Main runs a check and returns the process exit code.
